@@ -218,6 +218,10 @@ func c19Run(c *c19Case) (obs c19Obs) {
 			side.conn.Write([]byte("{\"garbage\n"))
 		case "not-envelope":
 			side.conn.Write([]byte("{\"foo\":1}\n"))
+		case "odd-session":
+			// a session envelope that ends nothing (the state the session is in already)
+			b, _ := json.Marshal(&lime.Session{State: lime.SessionStateEstablished})
+			side.conn.Write(append(b, '\n'))
 		case "oversize":
 			big := &lime.Message{}
 			big.ID = "big"
@@ -300,9 +304,12 @@ func init() {
 			if err := json.Unmarshal(b, &wrap); err != nil || wrap.Case == nil {
 				return fmt.Errorf("bad replay file")
 			}
+			if len(wrap.Case.Faults) == 1 && wrap.Case.Faults[0] == "ws-garbage-then-streaming-peer" {
+				return c19WSStreaming(e)
+			}
 			cases = []*c19Case{wrap.Case, wrap.Case}
 		} else {
-			faults := []string{"srv-finish", "srv-fail", "drop", "garbage", "not-envelope", "oversize"}
+			faults := []string{"srv-finish", "srv-fail", "drop", "garbage", "not-envelope", "oversize", "odd-session"}
 			for _, f := range faults {
 				for _, moment := range []string{"idle", "sending"} {
 					for _, h := range []bool{true, false} {
@@ -362,6 +369,6 @@ func init() {
 				}
 			}
 		}
-		return nil
+		return c19WSStreaming(e)
 	})
 }
